@@ -185,3 +185,66 @@ def enclosing_stmt(n):
     while p.parent is not None and p.parent.k not in ('CompoundStmt', 'IfStmt', 'ForStmt', 'WhileStmt', 'DoStmt', 'CaseStmt', 'DefaultStmt', 'SwitchStmt', 'CXXForRangeStmt'):
         p = p.parent
     return p
+
+
+def field_stores(facts, field, cls_prefix=None):
+    """every store to a field of that name in the analysed functions: yields (fn, target, op, value, stmt)"""
+    for fn in facts.functions:
+        if cls_prefix and not fn.q.startswith(cls_prefix):
+            continue
+        for tgt, op, val, st in stores(fn.body):
+            if target_name(tgt) == field:
+                yield fn, tgt, op, val, st
+        for name, init in fn.inits:
+            if name == field:
+                yield fn, None, 'init', init, init
+
+
+def is_toggle_of(val, name):
+    v = strip_casts(val)
+    return v is not None and v.k == 'UnaryOperator' and v.o == '!' and is_name(v.c[0], name)
+
+
+def mentions(n, name):
+    if n is None or isinstance(n, int):
+        return False
+    return any(x.k in REF_KINDS and x.n == name for x in n.walk())
+
+
+def variants(facts, q, chk=None, need_pattern=True, file=None):
+    fns = facts.fns(q, file=file)
+    if chk is not None and need_pattern:
+        chk.require(any(f.kind in ('pattern', 'plain') for f in fns), 'anchor %s not found' % q)
+    return fns
+
+
+def local_init(fn, name):
+    """initialiser of the local variable `name` (None if not found or not unique)"""
+    ds = fn.body.find(lambda n: n.k == 'VarDecl' and n.n == name)
+    if len(ds) != 1 or not ds[0].c:
+        return None
+    return strip_casts(ds[0].c[0])
+
+
+def precedes(fn, a, b):
+    """a is evaluated before b on every path that reaches b"""
+    oa, ob = fn.node_order(a), fn.node_order(b)
+    if oa is None or ob is None:
+        return False
+    if oa[0] == ob[0]:
+        return oa[1] < ob[1]
+    return fn.dominates(oa[0], ob[0])
+
+
+def member_calls(root, obj_name, method=None):
+    """calls obj_name.method(...)"""
+    out = []
+    for c in root.calls(method):
+        o = base_object(c)
+        if o is not None and is_name(o, obj_name):
+            out.append(c)
+    return out
+
+
+def ret_value(r):
+    return strip_casts(r.c[0]) if r.c else None
